@@ -107,7 +107,8 @@ func runMiniGoSpec(c *Ctx, progs []*Prog, maxCh int, tag string) *mgBatch {
 	for _, p := range progs {
 		if p.Split != nil {
 			fs := p.Files(false, nil)
-			b.Sources[p.ID] = "// ---- lib/lib.go\n" + fs["lib/lib.go"] + "// ---- main/main.go\n" + fs["main/main.go"]
+			lp := p.Split.path + "/lib.go"
+			b.Sources[p.ID] = "// ---- " + lp + "\n" + fs[lp] + "// ---- main/main.go\n" + fs["main/main.go"]
 		} else {
 			b.Sources[p.ID] = p.Source(false, nil)
 		}
@@ -232,9 +233,9 @@ func calibrateGo(c *Ctx, b *mgBatch, tag string) {
 		if p.Split != nil {
 			// the split layout is what the Go toolchain compiles: it checks the layout as well as the meaning
 			fs := p.Files(true, cvs)
-			src = strings.Replace(fs["main/main.go"], "LIBPATH", fmt.Sprintf("cal/p%d/lib", i), 1)
-			must(os.MkdirAll(filepath.Join(dir, fmt.Sprintf("p%d", i), "lib"), 0o755))
-			must(os.WriteFile(filepath.Join(dir, fmt.Sprintf("p%d", i), "lib", "lib.go"), []byte(fs["lib/lib.go"]), 0o644))
+			src = strings.Replace(fs["main/main.go"], "LIBPATH", fmt.Sprintf("cal/p%d/%s", i, p.Split.path), 1)
+			must(os.MkdirAll(filepath.Join(dir, fmt.Sprintf("p%d", i), p.Split.path), 0o755))
+			must(os.WriteFile(filepath.Join(dir, fmt.Sprintf("p%d", i), p.Split.path, "lib.go"), []byte(fs[p.Split.path+"/lib.go"]), 0o644))
 		} else {
 			src = p.Source(true, cvs)
 		}
